@@ -378,6 +378,11 @@ class Program:
         if isinstance(node, ast.Name):
             if env and node.id in env:
                 return env[node.id]
+            if env and env.get("__strict__") and node.id in env.get("__locals__", ()):
+                # a local of the evaluated function that no statement on this path has bound yet
+                err_ = EvalError(f"local `{node.id}` is read before it is bound (UnboundLocalError)")
+                err_.raised = "UnboundLocalError"          # type: ignore[attr-defined]
+                raise err_
             if node.id in mod.consts:
                 return self.const(mod.name, node.id)
             imp = mod.imports.get(node.id)
@@ -431,7 +436,22 @@ class Program:
                 except CannotFold:
                     recv_ = None
                 if isinstance(recv_, Abstract) and callable(getattr(recv_, fn.attr, None)):
-                    return getattr(recv_, fn.attr)(*[f(a) for a in node.args], **{k.arg: f(k.value) for k in node.keywords if k.arg})
+                    args_ = [f(a) for a in node.args]
+                    kw_a = {k.arg: f(k.value) for k in node.keywords if k.arg}
+                    try:
+                        return getattr(recv_, fn.attr)(*args_, **kw_a)
+                    except (TypeError, ValueError) as ex_:
+                        # the abstract object stands for a real one: what it refuses, the program's call raises
+                        if env is not None and env.get("__strict__"):
+                            err_ = EvalError(f"`{unparse(node)[:60]}` raises {type(ex_).__name__} ({str(ex_)[:60]})")
+                            err_.raised = type(ex_).__name__          # type: ignore[attr-defined]
+                            raise err_
+                        raise
+                if env is not None and env.get("__strict__") and recv_ is not None and isinstance(recv_, (dict, list, tuple, str, int, set, frozenset, Abstract)) \
+                        and not isinstance(recv_, Raised) and not hasattr(recv_, fn.attr):
+                    err_ = EvalError(f"`{unparse(node)[:60]}` raises AttributeError ({type(recv_).__name__} has no `{fn.attr}`)")
+                    err_.raised = "AttributeError"          # type: ignore[attr-defined]
+                    raise err_
             # str methods on folded receivers
             if isinstance(fn, ast.Attribute) and fn.attr in ("lstrip", "rstrip", "strip", "lower", "upper", "split", "keys", "values", "items", "replace", "startswith", "endswith", "join", "format", "zfill", "rjust", "ljust", "title", "capitalize",
                                                              "partition", "rpartition", "rsplit", "splitlines", "casefold", "isdigit", "find", "rfind", "index", "count"):
@@ -446,10 +466,23 @@ class Program:
                         raise EvalError(f"`{unparse(node)[:60]}` raises TypeError ({ex_})")
                 if isinstance(recv, str):
                     if fn.attr == "format":
-                        kw_ = {k.arg: f(k.value) for k in node.keywords if k.arg is not None}
-                        if any(k.arg is None for k in node.keywords):
-                            raise CannotFold(f"format(**..) not foldable: {unparse(node)[:60]}")
-                        return recv.format(*args, **kw_)
+                        kw_ = {}
+                        for k in node.keywords:
+                            if k.arg is None:
+                                splat_ = f(k.value)
+                                if not isinstance(splat_, dict):
+                                    raise CannotFold(f"format(**..) not foldable: {unparse(node)[:60]}")
+                                kw_.update(splat_)
+                            else:
+                                kw_[k.arg] = f(k.value)
+                        try:
+                            return recv.format(*args, **kw_)
+                        except (KeyError, IndexError, ValueError) as ex_:
+                            if env is not None and env.get("__strict__"):
+                                err_ = EvalError(f"`{unparse(node)[:60]}` raises {type(ex_).__name__} ({str(ex_)[:40]})")
+                                err_.raised = type(ex_).__name__          # type: ignore[attr-defined]
+                                raise err_
+                            raise CannotFold(f"format fails: {unparse(node)[:60]}")
                     return getattr(recv, fn.attr)(*args)
                 raise CannotFold(f"method on non-str: {unparse(node)}")
             if isinstance(fn, ast.Attribute) and fn.attr == "get" and 1 <= len(node.args) <= 2 and not node.keywords:
@@ -510,7 +543,7 @@ class Program:
             if cname == "getattr" and len(node.args) in (2, 3) and not node.keywords:
                 import types as _ty2
                 obj_, nm_ = f(node.args[0]), f(node.args[1])
-                if isinstance(obj_, _ty2.SimpleNamespace) and isinstance(nm_, str):
+                if isinstance(obj_, (_ty2.SimpleNamespace, Abstract)) and isinstance(nm_, str):
                     if hasattr(obj_, nm_):
                         return getattr(obj_, nm_)
                     if len(node.args) == 3:
@@ -666,6 +699,9 @@ class Program:
         body = [st for st in fn.node.body if not (isinstance(st, ast.Expr) and isinstance(st.value, ast.Constant))]
         env["__yields__"] = []
         env["__return__"] = True
+        inner_ = {id(x) for sub in ast.walk(fn.node) if sub is not fn.node and isinstance(sub, (ast.FunctionDef, ast.Lambda, ast.ListComp, ast.SetComp, ast.DictComp, ast.GeneratorExp)) for x in ast.walk(sub)}
+        env["__locals__"] = {x.id for x in ast.walk(fn.node) if isinstance(x, ast.Name) and isinstance(x.ctx, ast.Store) and id(x) not in inner_} \
+            - {g_ for st in ast.walk(fn.node) if isinstance(st, (ast.Global, ast.Nonlocal)) for g_ in st.names}
         try:
             self._propagate(fn.module, body, env, fn.fq)
         except _FuncReturn as r:
